@@ -11,11 +11,25 @@ from .base import VC
 OPEN = set()         # names of obligations whose failure means "shape not recognized" (undecided), not "refuted"
 
 
-def bvc(func: str, kind: str, label: str, ok: bool, loc: str = "", note: str = "", open_: bool = False) -> VC:
+DEFINITE = set()     # names of syntactic obligations whose failure is a semantic fact about the tree (a wrong routing entry, a missing template, a
+                     # forbidden call), not merely a shape that is no longer recognized
+
+
+def bvc(func: str, kind: str, label: str, ok: bool, loc: str = "", note: str = "", open_: bool = False, definite: bool = False) -> VC:
     vc = VC(func, kind, label, [], z3.BoolVal(bool(ok)), loc, 0, note=note[:600])
     if open_ and not ok:
         OPEN.add(vc.name)
+    if definite:
+        DEFINITE.add(vc.name)
     return vc
+
+
+def is_shape(vc, definite_labels=()) -> bool:
+    """A syntactic obligation (goal is a Boolean constant computed from the AST) that only says 'the code no longer has the expected shape'.
+    `definite_labels`: substrings of obligation names whose failure is a semantic fact (declared per property)."""
+    if vc.pc or not (z3.is_true(vc.goal) or z3.is_false(vc.goal)) or vc.name in DEFINITE or vc.name in OPEN:
+        return False
+    return not any(d in vc.name for d in definite_labels)
 
 
 def all_modules(tree, prefix: str = "rp2"):
@@ -228,6 +242,9 @@ class Writer:
                 continue
             if isinstance(st, ast.AugAssign) and (ast.unparse(st.target) == self.row_src or self.n(st.target) == self.row_norm):
                 self.advances.append((ast.unparse(st.op.__class__()) if False else type(st.op).__name__ + ":" + ast.unparse(st.value), guards, st.lineno))
+            if isinstance(st, ast.Assign) and len(st.targets) == 1 and isinstance(st.targets[0], ast.Name) and st.targets[0].id == self.row_src and \
+                    isinstance(st.value, ast.BinOp) and isinstance(st.value.op, (ast.Add, ast.Sub)) and ast.unparse(st.value.left) == self.row_src:
+                self.advances.append((type(st.value.op).__name__ + ":" + ast.unparse(st.value.right), guards, st.lineno))      # x = x + 1 is x += 1
             if isinstance(st, ast.Assign) and len(st.targets) == 1:
                 t = st.targets[0]
                 if not isinstance(t, ast.Name) and (ast.unparse(t) == self.row_src or self.n(t) == self.row_norm):
@@ -449,6 +466,18 @@ def amatch(e, a, sc: Scope, strict_annotations: bool = False) -> bool:
     return True
 
 
+def _benign(st) -> bool:
+    if isinstance(st, ast.Pass) or (isinstance(st, ast.AnnAssign) and st.value is None):
+        return True
+    if isinstance(st, ast.Expr):
+        if isinstance(st.value, ast.Constant):
+            return True
+        if isinstance(st.value, ast.Call) and dotted(st.value.func).split(".")[0] in ("LOGGER", "logging", "logger") and \
+                not any(isinstance(n, ast.Call) for a in st.value.args[1:] for n in ast.walk(a)):
+            return True          # a log statement whose arguments call nothing
+    return False
+
+
 def _is_ellipsis_stmt(st) -> bool:
     return isinstance(st, ast.Expr) and isinstance(st.value, ast.Constant) and st.value.value is Ellipsis
 
@@ -478,6 +507,10 @@ def _match_block(exp: List[ast.stmt], act: List[ast.stmt], sc: Scope, anchored: 
         if amatch(_norm_stmt(exp[i]), _norm_stmt(act[j]), sc) and rec(i + 1, j + 1, env0):
             return True
         sc.env = saved
+        # statements without effect on the computation may sit between the expected ones: logging calls, bare annotations, pass, string statements
+        if i > 0 and _benign(act[j]) and rec(i, j + 1, env0):
+            return True
+        sc.env = saved
         return False
     starts = [0] if anchored else range(len(act) + 1)
     for s0 in starts:
@@ -503,12 +536,12 @@ def has(fnode, snippet: str, mod_tree=None, scope: Optional[Scope] = None) -> bo
         return False
     import textwrap
     try:
-        exp = ast.parse(textwrap.dedent(snippet)).body
+        exp = canon(ast.parse(textwrap.dedent(snippet))).body
     except SyntaxError:
-        return ast.unparse(ast.parse(textwrap.dedent(snippet), mode="eval")) in ast.unparse(fnode) if False else False
+        return False
     sc = scope or scope_of(fnode, mod_tree)
     blocks = []
-    for n in ast.walk(fnode):
+    for n in ast.walk(canon_of(fnode)):
         for f in ("body", "orelse", "finalbody"):
             b = getattr(n, f, None)
             if isinstance(b, list) and b and isinstance(b[0], ast.stmt):
@@ -526,16 +559,16 @@ def has_expr(fnode, expr_src: str, mod_tree=None) -> bool:
     sc = scope_of(fnode, mod_tree)
     if "=" in expr_src and expr_src.split("=")[0].isidentifier() and not expr_src.split("=", 1)[1].startswith("="):
         k, v = expr_src.split("=", 1)
-        e = ast.parse(v, mode="eval").body
-        for n in ast.walk(fnode):
+        e = canon(ast.parse(v, mode="eval")).body
+        for n in ast.walk(canon_of(fnode)):
             if isinstance(n, ast.keyword) and n.arg == k:
                 saved = dict(sc.env)
                 if amatch(e, n.value, sc):
                     return True
                 sc.env = saved
         return False
-    e = ast.parse(expr_src, mode="eval").body
-    for n in ast.walk(fnode):
+    e = canon(ast.parse(expr_src, mode="eval")).body
+    for n in ast.walk(canon_of(fnode)):
         if isinstance(n, ast.expr):
             saved = dict(sc.env)
             if amatch(e, n, sc):
@@ -548,7 +581,7 @@ def expr_eq(expected_src: str, actual_src: str, sc: Scope) -> bool:
     if expected_src == actual_src:
         return True
     try:
-        e, a = ast.parse(expected_src, mode="eval").body, ast.parse(actual_src, mode="eval").body
+        e, a = canon(ast.parse(expected_src, mode="eval")).body, canon(ast.parse(actual_src, mode="eval")).body
     except SyntaxError:
         return False
     saved = dict(sc.env)
@@ -598,12 +631,12 @@ def first_line(fnode, snippet: str, mod_tree=None) -> Optional[int]:
     if fnode is None:
         return None
     try:
-        exp = ast.parse(textwrap.dedent(snippet)).body
+        exp = canon(ast.parse(textwrap.dedent(snippet))).body
     except SyntaxError:
         return None
     sc = scope_of(fnode, mod_tree)
     best = None
-    for n in ast.walk(fnode):
+    for n in ast.walk(canon_of(fnode)):
         for f in ("body", "orelse", "finalbody"):
             b = getattr(n, f, None)
             if isinstance(b, list) and b and isinstance(b[0], ast.stmt):
@@ -628,3 +661,80 @@ class _Rename(ast.NodeTransformer):
 def renamed(node, mapping: Dict[str, str]):
     import copy
     return ast.fix_missing_locations(_Rename(mapping).visit(copy.deepcopy(node)))
+
+
+# ------------------------------------------------------------------------------------------------------------------ canonical forms
+# Equivalent spellings are brought to one form before expected and actual code are compared, so that the usual harmless rewrites do not
+# change a verdict:  x += e  ==  x = x + e;  a == b  ==  b == a (operands ordered textually);  not (a or b)  ==  not a and not b;
+# not (a == b)  ==  a != b;  `X if not c else Y`  ==  `Y if c else X`;  `if not c: A else: B`  ==  `if c: B else: A`;  tests with != are
+# turned into == with the branches swapped.
+class _Canon(ast.NodeTransformer):
+    def visit_AugAssign(self, n):
+        n = self.generic_visit(n)
+        import copy
+        tgt_load = copy.deepcopy(n.target)
+        for x in ast.walk(tgt_load):
+            if hasattr(x, "ctx"):
+                x.ctx = ast.Load()
+        return ast.copy_location(ast.Assign(targets=[n.target], value=ast.BinOp(left=tgt_load, op=n.op, right=n.value)), n)
+
+    def visit_Compare(self, n):
+        n = self.generic_visit(n)
+        if len(n.ops) == 1 and isinstance(n.ops[0], (ast.Eq, ast.NotEq)):
+            a, b = n.left, n.comparators[0]
+            if ast.unparse(b) < ast.unparse(a):
+                n.left, n.comparators = b, [a]
+        return n
+
+    def _neg(self, e):
+        """canonical negation of an already canonical expression"""
+        if isinstance(e, ast.UnaryOp) and isinstance(e.op, ast.Not):
+            return e.operand
+        if isinstance(e, ast.BoolOp):
+            return ast.copy_location(ast.BoolOp(op=ast.And() if isinstance(e.op, ast.Or) else ast.Or(), values=[self._neg(v) for v in e.values]), e)
+        if isinstance(e, ast.Compare) and len(e.ops) == 1:
+            flip = {ast.Eq: ast.NotEq, ast.NotEq: ast.Eq, ast.Is: ast.IsNot, ast.IsNot: ast.Is, ast.In: ast.NotIn, ast.NotIn: ast.In,
+                    ast.Lt: ast.GtE, ast.GtE: ast.Lt, ast.Gt: ast.LtE, ast.LtE: ast.Gt}
+            t = flip.get(type(e.ops[0]))
+            if t is not None and not isinstance(e.ops[0], (ast.Lt, ast.GtE, ast.Gt, ast.LtE)):      # order comparisons of Decimals/None-able values are left alone
+                return ast.copy_location(ast.Compare(left=e.left, ops=[t()], comparators=e.comparators), e)
+        return ast.copy_location(ast.UnaryOp(op=ast.Not(), operand=e), e)
+
+    def visit_UnaryOp(self, n):
+        n = self.generic_visit(n)
+        if isinstance(n.op, ast.Not):
+            return self._neg(n.operand)
+        return n
+
+    @staticmethod
+    def _negative(t) -> bool:
+        return (isinstance(t, ast.UnaryOp) and isinstance(t.op, ast.Not)) or \
+            (isinstance(t, ast.Compare) and len(t.ops) == 1 and isinstance(t.ops[0], (ast.NotEq, ast.IsNot, ast.NotIn)))
+
+    def visit_IfExp(self, n):
+        n = self.generic_visit(n)
+        if self._negative(n.test):
+            return ast.copy_location(ast.IfExp(test=self._neg(n.test), body=n.orelse, orelse=n.body), n)
+        return n
+
+    def visit_If(self, n):
+        n = self.generic_visit(n)
+        if n.orelse and self._negative(n.test) and not (len(n.orelse) == 1 and isinstance(n.orelse[0], ast.If)):
+            return ast.copy_location(ast.If(test=self._neg(n.test), body=n.orelse, orelse=n.body), n)
+        return n
+
+
+_CANON: Dict[int, ast.AST] = {}
+
+
+def canon(node):
+    import copy
+    c = _Canon().visit(copy.deepcopy(node))
+    ast.fix_missing_locations(c)
+    return c
+
+
+def canon_of(fnode):
+    if id(fnode) not in _CANON:
+        _CANON[id(fnode)] = canon(fnode)
+    return _CANON[id(fnode)]
